@@ -4,7 +4,7 @@
    that the real library + the repository's glue act within the guards of that abstract node is checked on the traces of
    real 4- and 7-validator networks (Harness/C19.v).  Liveness: only the round-progress lemmas below.
    Statements only; every proof is [exact lemma]. *)
-From NG Require Import Common.Tactics Codec.Multisig Consensus.Dbft Consensus.DbftProofs Consensus.Witness Consensus.WitnessProofs.
+From NG Require Import Common.Tactics Codec.Multisig Consensus.Dbft Consensus.DbftProofs Consensus.Witness Consensus.WitnessProofs Consensus.Recovery Consensus.RecoveryProofs.
 Close Scope N_scope.
 
 (* agreement: no two honest validators accept different blocks at a height — for every number of validators n and bound f
@@ -106,6 +106,49 @@ Theorem C19_witness_unfiltered_refuted :
   seq_match (verify_hd 11%N) (seq 0 4) (assemble true 3 1%N ex_table) = true.
 Proof. exact witness_unfiltered_refuted. Qed.
 Print Assumptions C19_witness_unfiltered_refuted.
+
+
+(* ---------- the recovery glue (added after the second independent mutation round) ---------- *)
+
+(* A RecoveryMessage is a projection of the sender's payload tables and the receiver's reconstruction is its inverse: for a
+   sender whose tables are those of a validator at height h, view v (preparations and commits of view v, ChangeViews with
+   their own original views) the rebuilt payloads ARE the sender's payloads — validator, height, VIEW, body, witness *)
+Theorem C19_recovery_roundtrip : forall c : ctx, wf c -> restore (project c) = payloads c.
+Proof. exact recovery_roundtrip. Qed.
+Print Assumptions C19_recovery_roundtrip.
+
+Theorem C19_recovery_views_preserved : forall c : ctx, wf c ->
+  forall p, In p (restore (project c)) -> In p (payloads c) /\ (pkind p <> KCV -> pview p = cview c).
+Proof. exact recovery_views_preserved. Qed.
+Print Assumptions C19_recovery_views_preserved.
+
+(* progress through recovery (abstract validator): holding M-1 commits of its view for its proposal, a validator that is
+   handed — out of a recovery message of a committed peer — the commit of one more validator has M commits; by
+   C19_round_progress_accept it then accepts.  Liveness remains PARTIAL: this and the round-progress lemmas only *)
+Theorem C19_recovery_progress : forall (p : params) (s : gst) (i j : node) (b : blockid) (rest : list msg),
+  honest p i -> prop (nodes s i) = Some b -> acc (nodes s i) = None ->
+  (pm p <= S (length (commit_senders (inbox (nodes s i)) (vw (nodes s i)) b)))%nat ->
+  ~ In (MCommit j (vw (nodes s i)) b) (inbox (nodes s i)) ->
+  forall inbox', (forall m, In m (MCommit j (vw (nodes s i)) b :: rest ++ inbox (nodes s i)) -> In m inbox') ->
+  (pm p <= length (commit_senders inbox' (vw (nodes s i)) b))%nat.
+Proof. exact recovery_progress. Qed.
+Print Assumptions C19_recovery_progress.
+
+(* non-vacuity: a sender at height 5, view 2 holding the request, two responses, one commit and ChangeViews of views 0 and 1 *)
+Example C19_recovery_example :
+  let c := mkCtx 5%N 2%N (Some (mkPl KReq 3%N 5%N 2%N 70%N 1%N))
+                 [mkPl KResp 0%N 5%N 2%N 71%N 2%N; mkPl KResp 1%N 5%N 2%N 71%N 3%N]
+                 [mkPl KCommit 0%N 5%N 2%N 90%N 4%N]
+                 [mkPl KCV 0%N 5%N 0%N 11%N 5%N; mkPl KCV 1%N 5%N 1%N 12%N 6%N] in
+  wf c /\ restore (project c) = payloads c /\ length (payloads c) = 6%nat.
+Proof.
+  intros c. split; [|split; reflexivity].
+  unfold wf, at_view. split; [|split; [|split]].
+  - intros q E. inv E. simpl. repeat split; congruence.
+  - intros q E. simpl in E. repeat (destruct E as [E|E]; [subst q; simpl; repeat split; congruence|]). contradiction.
+  - intros q E. simpl in E. repeat (destruct E as [E|E]; [subst q; simpl; repeat split; congruence|]). contradiction.
+  - intros q E. simpl in E. repeat (destruct E as [E|E]; [subst q; simpl; repeat split; congruence|]). contradiction.
+Qed.
 
 (* NOT proved (the property's liveness clause in full): under eventual synchrony with all validators honest, every height is
    eventually decided and every pending valid transaction is eventually included.  Kept visible as a statement only. *)
